@@ -135,6 +135,18 @@ class Vec(list):
         return Vec(list.__add__(self, o))
 
 
+class Mat(list):
+    """two-dimensional numpy array of small integers / opaque values: list of Vec rows"""
+
+    @property
+    def shape(self):
+        return (len(self), len(self[0]) if self else 0)
+
+
+def _is_full_slice(n):
+    return isinstance(n, ast.Slice) and n.lower is None and n.upper is None and n.step is None
+
+
 class Stub:
     def __init__(self, kind, **attrs):
         self.kind = kind
@@ -226,6 +238,32 @@ class Evaluator:
                 raise Unsupported("unpacking mismatch")
             for tt, vv in zip(t.elts, vs):
                 self.store(tt, vv, env)
+        elif isinstance(t, ast.Attribute):
+            base = self.ev(t.value, env)
+            if not isinstance(base, Stub):
+                raise Unsupported("attribute store %s" % norm(t))
+            base.attrs[t.attr] = v
+        elif isinstance(t, ast.Subscript) and _is_full_slice(t.slice):
+            base = self.ev(t.value, env)
+            if not isinstance(base, list):
+                raise Unsupported("slice store into %s" % norm(t.value))
+            vals = list(v) if isinstance(v, (list, tuple)) else [v] * len(base)
+            if len(vals) != len(base):
+                raise Unsupported("slice store of a different length")
+            base[:] = vals
+        elif isinstance(t, ast.Subscript) and isinstance(t.slice, ast.Tuple) and len(t.slice.elts) == 2:
+            base = self.ev(t.value, env)
+            if not isinstance(base, Mat):
+                raise Unsupported("two-index store into %s" % norm(t.value))
+            r, c = t.slice.elts
+            if _is_full_slice(c) and not isinstance(r, ast.Slice):
+                row = base[self.ev(r, env)]
+                vals = list(v) if isinstance(v, (list, tuple)) else [v] * len(row)
+                row[:] = vals
+            elif not isinstance(r, ast.Slice) and not isinstance(c, ast.Slice):
+                base[self.ev(r, env)][self.ev(c, env)] = v
+            else:
+                raise Unsupported("store %s" % norm(t))
         elif isinstance(t, ast.Subscript):
             base = self.ev(t.value, env)
             idx = self.ev(t.slice, env)
@@ -299,6 +337,10 @@ class Evaluator:
                 raise Unsupported("attribute %s of %s" % (e.attr, b.kind))
             if b == "<numpy>":
                 return ("<numpy>", e.attr)
+            if isinstance(b, Mat) and e.attr == "shape":
+                return b.shape
+            if isinstance(b, list) and e.attr == "shape":
+                return (len(b),)
             raise Unsupported("attribute %s" % norm(e))
         if isinstance(e, ast.BinOp):
             return self.binop(e.op, self.ev(e.left, env), self.ev(e.right, env))
@@ -350,6 +392,16 @@ class Evaluator:
                 st = self.ev(e.slice.step, env) if e.slice.step else None
                 r = b[lo:hi:st]
                 return Vec(r) if isinstance(b, Vec) else r
+            if isinstance(b, Mat) and isinstance(e.slice, ast.Tuple) and len(e.slice.elts) == 2:
+                r, c = e.slice.elts
+                if _is_full_slice(c) and not isinstance(r, ast.Slice):
+                    return Vec(b[self.ev(r, env)])
+                if _is_full_slice(r) and not isinstance(c, ast.Slice):
+                    ci = self.ev(c, env)
+                    return Vec(row[ci] for row in b)
+                if not isinstance(r, ast.Slice) and not isinstance(c, ast.Slice):
+                    return b[self.ev(r, env)][self.ev(c, env)]
+                raise Unsupported("subscript %s" % norm(e))
             if isinstance(b, SymArr) and isinstance(e.slice, ast.Tuple) and \
                     any(isinstance(x, ast.Slice) for x in e.slice.elts):
                 if all(isinstance(x, ast.Slice) for x in e.slice.elts):
@@ -378,9 +430,30 @@ class Evaluator:
 
     def call(self, e, env):
         args = [self.ev(a, env) for a in e.args]
-        f = self.ev(e.func, env) if not isinstance(e.func, ast.Name) or e.func.id in env else ("<global>", e.func.id)
-        if isinstance(f, tuple) and f[0] == "<global>":
-            name = f[1]
+        if isinstance(e.func, ast.Attribute):
+            recv = self.ev(e.func.value, env)
+            meth = e.func.attr
+            if isinstance(recv, Stub):
+                if meth not in recv.methods:
+                    raise Unsupported("method %s of %s" % (meth, recv.kind))
+                kwargs = {k.arg: self.ev(k.value, env) for k in e.keywords if k.arg is not None}
+                return recv.methods[meth](*args, **kwargs)
+            if recv == "<numpy>":
+                return self.numpy_call(meth, args)
+            if isinstance(recv, list) and meth == "append":
+                recv.append(args[0])
+                return None
+            if isinstance(recv, (list, tuple)) and meth in ("index", "count"):
+                return getattr(recv, meth)(*args)
+            if isinstance(recv, list) and meth == "copy" and not args:
+                return type(recv)(recv) if isinstance(recv, (Vec, Mat)) else list(recv)
+            if isinstance(recv, dict) and meth in ("get", "keys", "values", "items"):
+                return getattr(recv, meth)(*args)
+            raise Unsupported("call %s" % norm(e)[:60])
+        if isinstance(e.func, ast.Name):
+            name = e.func.id
+            if name in env and callable(env[name]):
+                return env[name](*args)
             if name == "isinstance":
                 cls = e.args[1]
                 names = [c.id for c in (cls.elts if isinstance(cls, ast.Tuple) else [cls]) if isinstance(c, ast.Name)]
@@ -391,41 +464,59 @@ class Evaluator:
             if name in table:
                 return table[name](*args)
             raise Unsupported("call of %s" % name)
-        if isinstance(f, tuple) and f[0] == "<numpy>":
-            name = f[1]
-            if name in ("array", "asarray"):
-                return Vec(args[0])
-            if name in ("abs", "absolute"):
-                return Vec(abs(x) for x in args[0]) if isinstance(args[0], list) else abs(args[0])
-            if name == "sum":
-                return sum(args[0])
-            if name in ("max", "amax"):
-                return max(args[0])
-            if name in ("min", "amin"):
-                return min(args[0])
-            if name == "sqrt":
-                return math.sqrt(args[0])
-            if name in ("real", "float64", "int64"):
-                return args[0]
-            if name in ("count_nonzero",):
-                return sum(1 for x in args[0] if x != 0)
-            if name in ("nonzero", "flatnonzero"):
-                r = [i for i, x in enumerate(args[0]) if x != 0]
-                return (Vec(r),) if name == "nonzero" else Vec(r)
-            if name == "zeros":
-                n = args[0] if isinstance(args[0], int) else args[0][0]
-                return Vec([0] * n)
-            raise Unsupported("numpy.%s" % name)
-        if isinstance(f, tuple) and f[0] == "<method>":
-            return f[1].methods[f[2]](*args)
-        if isinstance(e.func, ast.Attribute):
-            recv = self.ev(e.func.value, env)
-            if isinstance(recv, list) and e.func.attr == "append":
-                recv.append(args[0])
-                return None
-            if isinstance(recv, (list, tuple)) and e.func.attr in ("index", "count"):
-                return getattr(recv, e.func.attr)(*args)
         raise Unsupported("call %s" % norm(e)[:60])
+
+    def numpy_call(self, name, args):
+        if name in ("array", "asarray"):
+            return Vec(args[0])
+        if name in ("abs", "absolute"):
+            return Vec(abs(x) for x in args[0]) if isinstance(args[0], list) else abs(args[0])
+        if name == "sum":
+            return sum(args[0])
+        if name in ("max", "amax"):
+            return max(args[0])
+        if name in ("min", "amin"):
+            return min(args[0])
+        if name == "sqrt":
+            return math.sqrt(args[0])
+        if name in ("real", "float64", "int64"):
+            return args[0]
+        if name in ("count_nonzero",):
+            return sum(1 for x in args[0] if x != 0)
+        if name in ("nonzero", "flatnonzero"):
+            r = [i for i, x in enumerate(args[0]) if x != 0]
+            return (Vec(r),) if name == "nonzero" else Vec(r)
+        if name == "zeros":
+            if isinstance(args[0], int):
+                return Vec([0] * args[0])
+            if len(args[0]) == 1:
+                return Vec([0] * args[0][0])
+            if len(args[0]) == 2:
+                return Mat(Vec([0] * args[0][1]) for _ in range(args[0][0]))
+            raise Unsupported("numpy.zeros of rank > 2")
+        if name == "array_equal":
+            return list(args[0]) == list(args[1])
+        raise Unsupported("numpy.%s" % name)
+
+
+def interpreted_method(stub, fnode, budget=2000000):
+    """a callable that interprets the method `fnode` with `stub` as self"""
+    def call(*args, **kwargs):
+        a = fnode.args
+        names = [x.arg for x in a.args][1:]
+        env = {"self": stub}
+        defaults = dict(zip(names[len(names) - len(a.defaults):], a.defaults))
+        for i, nme in enumerate(names):
+            if i < len(args):
+                env[nme] = args[i]
+            elif nme in kwargs:
+                env[nme] = kwargs[nme]
+            elif nme in defaults:
+                env[nme] = ast.literal_eval(defaults[nme])
+            else:
+                raise Unsupported("missing argument %s" % nme)
+        return Evaluator(max_steps=budget).call_function(fnode, env)
+    return call
 
 
 def _as_load(t):
@@ -433,4 +524,6 @@ def _as_load(t):
         return ast.Name(id=t.id, ctx=ast.Load())
     if isinstance(t, ast.Subscript):
         return ast.Subscript(value=t.value, slice=t.slice, ctx=ast.Load())
+    if isinstance(t, ast.Attribute):
+        return ast.Attribute(value=t.value, attr=t.attr, ctx=ast.Load())
     raise Unsupported("augmented assignment target")
